@@ -525,7 +525,7 @@ def broadcast_shapes(*shapes):
             if d is None:
                 d = x
             elif not same_dim(d, x):
-                cur().definedness(to_z3(d) == to_z3(x), "broadcast of unequal dimensions")
+                cur().definedness(to_z3(d) == to_z3(x), "broadcast of unequal dimensions", force=True)
         out.append(1 if d is None else d)
     return tuple(out)
 
@@ -565,6 +565,26 @@ def elementwise(f, *ops, dtype=None):
         else:
             dtype = kinds[0] if kinds else "float"
     r = Arr(shp, fn, dtype=dtype)
+    ufs = [getattr(a, "unflat", None) for a in arrs]
+    if nd == 1 and arrs and all(u is not None for u, a in zip(ufs, arrs) if a.ndim == 1 and not (isinstance(a.shape[0], int) and a.shape[0] == 1)) \
+            and any(u is not None for u in ufs):
+        base = next(u for u in ufs if u is not None)[1]
+        okk = all(u is None or all(same_dim(x, y) for x, y in zip(u[1], base)) for u in ufs)
+        if okk:
+            parts = []
+            for o in ops:
+                if isinstance(o, Arr):
+                    u = getattr(o, "unflat", None)
+                    parts.append(("u", u[0]) if u is not None else ("c", o.snapshot_fn()))
+                else:
+                    parts.append(("s", o))
+
+            def ufn(idx2, parts=parts):
+                vals = []
+                for t, v in parts:
+                    vals.append(v(idx2) if t == "u" else (v((0,)) if t == "c" else v))
+                return f(*vals)
+            r.unflat = (ufn, base)
     cs = [a.compress for a in arrs if a.compress is not None]
     if cs and all(a.compress is not None for a in arrs if a.ndim == r.ndim):
         r.compress = cs[0]
@@ -1034,6 +1054,12 @@ def reshape_copy(a, shape):
             off = off // d
         out.append(off)
         return tuple(reversed(out))
+    # D9 (meshgrid / flatten / reshape index algebra): a C-order flatten of a 2-d array remembers the 2-d closure, and
+    # reshaping a flat array back to the same 2-d shape returns it, so no division / modulo reaches the solver
+    if len(shape) == 2 and len(src) == 1 and getattr(a, "unflat", None) is not None:
+        uf, ushape = a.unflat
+        if all(same_dim(x, y) for x, y in zip(ushape, shape)):
+            return Arr(shape, lambda idx: uf(idx), dtype=a.kind)
     # special cases that avoid div/mod: 2-d <-> 1-d
     if len(shape) == 1 and len(src) == 2:
         n1 = src[1]
@@ -1047,7 +1073,9 @@ def reshape_copy(a, shape):
             r = Num(z3.Int(e.uniq("r")))
             e.axiom(z3.Implies(to_z3(n1) > 0, z3.And(to_z3(k) == q.t * to_z3(n1) + r.t, r.t >= 0, r.t < to_z3(n1))))
             return f((q, r))
-        return Arr(shape, fn, dtype=a.kind)
+        r1 = Arr(shape, fn, dtype=a.kind)
+        r1.unflat = (f, tuple(src))
+        return r1
     if len(shape) == 2 and len(src) == 1:
         n1 = shape[1]
         return Arr(shape, lambda idx: f((idx[0] * n1 + idx[1],)), dtype=a.kind)
